@@ -18,3 +18,11 @@ package task
 //@   ensures (t.Run != "" ? t.Run : e.Taskfile.Run) == "when_changed" ==> result.0 == changedKey(t)                [C06]
 //@   ensures (t.Run != "" ? t.Run : e.Taskfile.Run) != "always" && (t.Run != "" ? t.Run : e.Taskfile.Run) != "once"
 //@           && (t.Run != "" ? t.Run : e.Taskfile.Run) != "when_changed" ==> result.1 != nil                        [C06]
+
+// ---- C16: guards that walk decoded lists (elements are non-nil by the decoder's invariant) ---------
+//@ func shouldRunOnCurrentPlatform
+//@   sweep                                                          [C16]
+//@ func (*Executor).areTaskRequiredVarsSet
+//@   sweep                                                          [C16]
+//@ func (*Executor).areTaskRequiredVarsAllowedValuesSet
+//@   sweep                                                          [C16]
